@@ -1,7 +1,7 @@
 #!/usr/bin/env python3
 """Systematic mutation analysis of the checks (a search for what they do NOT see).
 
-   automut.py [--files f1,f2,...] [--max N] [--start K] [--out results.jsonl] [--tier quick]
+   automut.py [--files f1,f2,...] [--max N] [--start K] [--stride S] [--only file:line[:rule],...] [--out results.jsonl] [--tier quick]
 
 Generates first-order mutants of the Inovesa sources by rule (relational operator boundaries, +/- , min/max, floor/ceil/round, axis index 0/1,
 small constants, x/y size names, dropped call statements) - only in code that is compiled in this build (OpenCL / OpenGL / profiling blocks are
@@ -148,6 +148,10 @@ def main():
             allm += mutants_of(f, open(p).read())
     # deterministic spread over files and rules: take every stride-th mutant
     sel = allm[start::stride][:mx]
+    only = opt("--only", "")      # file:line[:rule],... - re-run chosen mutants (e.g. the survivors of an earlier run against extended checks)
+    if only:
+        want = [tuple(x.split(":")) for x in only.split(",")]
+        sel = [m for m in allm if any(m["file"] == w[0] and str(m["line"]) == w[1] and (len(w) < 3 or m["rule"] == w[2]) for w in want)]
     print("mutants generated: %d, selected: %d" % (len(allm), len(sel)), flush=True)
     shutil.rmtree(SCR, ignore_errors=True)
     os.makedirs(SCR)
